@@ -183,7 +183,7 @@ RECEIVER_ONLY = ("core::iter::traits::iterator::Iterator::", "core::iter::traits
                  "core::result::Result::<", "core::slice::<impl [T]>::iter", "core::iter::traits::double_ended::DoubleEndedIterator::")
 
 
-def backward_slice(body, operand, max_steps=400, data_only=False):
+def backward_slice(body, operand, max_steps=400, data_only=False, pointer_only=False):
     """locals and calls an operand's value may derive from (intraprocedural, through all defs, projections ignored).
     returns (set(locals), [Call...], [cast statements]). With data_only, iterator / Option / Result adapters are followed
     through their receiver only: the elements of `xs.iter().find(|x| x.id == wanted)` come from `xs`, not from `wanted`."""
@@ -208,6 +208,8 @@ def backward_slice(body, operand, max_steps=400, data_only=False):
                     if a[0] in ("c", "m"):
                         work.append(a[1][0])
             elif d[0] in ("stmt", "part", "dpart"):
+                if pointer_only and d[0] == "dpart":
+                    continue            # where a pointer comes from, not what is stored behind it
                 rv = d[3] if d[0] == "stmt" else d[4]
                 if rv and rv[0] == "cast":
                     casts.append(rv)
@@ -480,3 +482,42 @@ def must_pass(body, facts, through, target, start=0):
     if target in through:
         return True
     return target not in dj_of(body, facts).feasible_reach(start, removed_nodes=through)
+
+
+def upvar_names(facts, child, _depth=0):
+    """{upvar index: last field name of what the closure/coroutine `child` captured at that index} (through `&` / `&mut`)"""
+    site = creation_site(facts, child)
+    if site is None:
+        return {}
+    par, pbb, pj, stmt = site
+    d = dj_of(par, facts)
+    out = {}
+    parent_names = None
+    for i, op in enumerate(stmt[2][2]):
+        if op[0] in ("c", "m"):
+            pth = d.canon.path(op[1])
+            if pth[1]:
+                nm = pth[1][-1]
+                # re-captured from the creator's own environment (`_1.k`): resolve one level further out
+                if pth[0] == 1 and len(pth[1]) == 1 and nm.isdigit() and par.kind == "Closure" and _depth < 4:
+                    if parent_names is None:
+                        parent_names = upvar_names(facts, par, _depth + 1)
+                    nm = parent_names.get(int(nm), nm)
+                out[i] = nm
+            else:
+                out[i] = par.local_name(pth[0]) or ""
+    return out
+
+
+def new_async_helpers(facts, b):
+    """[(future body of a NEW async fn awaited in b, operands it was created with)] - an `async fn` split out of b is not spliced by
+    the inliner (its body is a coroutine of its own), so rules about a loop that may move there look here as well"""
+    from .inline import is_new_function
+    out = []
+    for bb0, c0 in b.calls():
+        res = c0.callee.get("res") or ""
+        if bb0 in b.live_blocks and res.endswith("::{closure#0}") and is_new_function(res[:-len("::{closure#0}")]) and facts.body(res) is not None:
+            ops = [st[2][2] for bbx in b.live_blocks for st in b.stmts(bbx)
+                   if st[0] == "A" and st[2][0] == "agg" and st[2][1][0] == "coroutine" and st[2][1][1] == res]
+            out.append((facts.body(res), ops[0] if ops else list(c0.args)))
+    return out
